@@ -107,11 +107,11 @@ Definition allow_list : list (string * audit) :=
    ("cast|Include/XalanVector.hpp|size_type|(m_size * 1.6) + 0.5|const size_type theNewSize = size_type((m_size * 1.6) + 0.5)|x1",
       SizeScaled "container size (bounded by memory) times a constant factor <= 1.6");
    ("cast|PlatformSupport/DOMStringHelper.cpp|XMLInt64|theValue|NumberToCharacters(static_cast<XMLInt64>(theValue), formatterListener, function)|x1",
-      UnguardedK9 "finite non-zero double, no range test: cast_int64_refuted / cast_int64_partial");
+      Guarded "cast_guarded_int64 (reached only when the guarded comparison in front of it held)");
    ("cast|PlatformSupport/DOMStringHelper.cpp|XMLInt64|theValue|NumberToDOMString(static_cast<XMLInt64>(theValue), theResult)|x1",
-      UnguardedK9 "finite non-zero double, no range test: cast_int64_refuted / cast_int64_partial");
-   ("cast|PlatformSupport/DOMStringHelper.cpp|XMLInt64|theValue|else if (static_cast<XMLInt64>(theValue) == theValue)|x2",
-      UnguardedK9 "finite non-zero double, no range test: cast_int64_refuted / cast_int64_partial");
+      Guarded "cast_guarded_int64 (reached only when the guarded comparison in front of it held)");
+   ("cast|PlatformSupport/DOMStringHelper.cpp|XMLInt64|theValue|else if (theValue >= -9223372036854775808.0 && theValue < 9223372036854775808.0 && static_cast<XMLInt64>(theValue) == theValue)|x2",
+      Guarded "cast_guarded_int64 (range test in the same condition; translator anchor)");
    ("cast|PlatformSupport/DOMStringHelper.cpp|XalanDOMChar|-(theValue % 10) + XalanUnicode::charDigit_0|*--theOutput = XalanDOMChar(-(theValue % 10) + XalanUnicode::charDigit_0)|x1",
       NotDouble "the operand has an integer type (census heuristic over-approximates)");
    ("cast|PlatformSupport/DOMStringHelper.cpp|XalanDOMChar|theValue % 10 + XalanUnicode::charDigit_0|*--theOutput = XalanDOMChar(theValue % 10 + XalanUnicode::charDigit_0)|x1",
@@ -133,17 +133,17 @@ Definition allow_list : list (string * audit) :=
    ("cast|XPath/XNumber.cpp|FormatterListener::size_type|theValue.length()|assert(theValue.length() == FormatterListener::size_type(theValue.length()))|x2",
       NotDouble "the operand has an integer type (census heuristic over-approximates)");
    ("cast|XPath/XPath.cpp|NodeRefListBase::size_type|theIndex|XalanNode* const theNode = subQueryResults.item(NodeRefListBase::size_type(theIndex) - 1)|x1",
-      UnguardedK9 "number literal predicate, only theIndex <= 0.0 is excluded: cast_predicate_refuted / cast_predicate_partial");
-   ("cast|XPath/XPath.cpp|NodeRefListBase::size_type|theIndex|if (theIndex <= 0.0 || NodeRefListBase::size_type(theIndex) > theLength || double(NodeRefListBase::size_type(theIndex)) != theIndex)|x2",
-      UnguardedK9 "number literal predicate, only theIndex <= 0.0 is excluded: cast_predicate_refuted / cast_predicate_partial");
+      Guarded "cast_guarded_predicate (else branch of the guarded condition)");
+   ("cast|XPath/XPath.cpp|NodeRefListBase::size_type|theIndex|if (theIndex <= 0.0 || theIndex > double(theLength) || double(NodeRefListBase::size_type(theIndex)) != theIndex)|x1",
+      Guarded "cast_guarded_predicate (0 < theIndex <= theLength compared as doubles first; translator anchor)");
    ("cast|XSLT/ElemNumber.cpp|CountType|DoubleSupport::round(theValue)|const CountType theNumber = CountType(DoubleSupport::round(theValue))|x1",
-      UnguardedK9 "value >= 0.5 and finite, no upper range test: cast_count_refuted / cast_count_partial");
-   ("cast|XalanEXSLT/XalanEXSLTMath.cpp|XalanDOMString::size_type|thePrecision <= theSize ? thePrecision : theSize|return executionContext.getXObjectFactory().createNumber( theValues[XalanDOMString::size_type(thePrecision <= theSize ? thePrecision : theSize)])|x1",
-      UnguardedKnew1 "precision > 0 but NaN and >= table size select theValues[theSize]: one past the table");
+      Guarded "cast_guarded_count (value >= 0.5, finite and below double(max CountType); translator anchor)");
+   ("cast|XalanEXSLT/XalanEXSLTMath.cpp|XalanDOMString::size_type|thePrecision|return executionContext.getXObjectFactory().createNumber( theValues[thePrecision < theSize ? XalanDOMString::size_type(thePrecision) : theSize - 1])|x1",
+      Guarded "math_constant_index_in_table (0 < thePrecision < theSize; translator anchor)");
    ("cast|XalanEXSLT/XalanEXSLTString.cpp|XalanDOMString::size_type|theLength|XalanDOMString::size_type theRemainingLength = XalanDOMString::size_type(theLength)|x1",
-      UnguardedKnew2 "any non-zero double incl. NaN and negative values is converted to size_type");
+      Guarded "cast_guarded_padding (1 <= theLength < npos tested before; translator anchor)");
    ("cast|XalanEXSLT/XalanEXSLTString.cpp|XalanDOMString::size_type|theLength|theResult.assign(XalanDOMString::size_type(theLength), thePaddingString[0])|x1",
-      UnguardedKnew2 "any non-zero double incl. NaN and negative values is converted to size_type")
+      Guarded "cast_guarded_padding (1 <= theLength < npos tested before; translator anchor)")
   ].
 
 Definition census_all : list string := census_arrays ++ census_calls ++ census_casts.
@@ -269,9 +269,15 @@ Definition substring_start_casts (r len : Z) : bool := negb (r >=? len)%Z.
    reached with theTotal > theXPathStartIndex, i.e. theSubstringLength > 0 *)
 Definition substring_length_casts (l maxlen : Z) : bool := negb (l >? maxlen)%Z.
 
-(* XPath::predicates, number-literal shortcut: the cast is evaluated unless theIndex <= 0.0 *)
-Definition predicate_casts (x : Z) : bool := negb (x <=? 0)%Z.
-(* ElemNumber::getCountString: value not NaN / infinite / < 0.5; x = round(value) *)
-Definition count_casts (x : Z) : bool := (1 <=? x)%Z.
-(* NumberToDOMString / NumberToCharacters(double): finite and non-zero *)
-Definition int64_casts (x : Z) : bool := negb (x =? 0)%Z.
+(* XPath::predicates, number-literal shortcut:
+     theIndex <= 0.0 || theIndex > double(theLength) || double(size_type(theIndex)) != theIndex
+   the cast is evaluated only when the first two tests are false *)
+Definition predicate_casts (x len : Z) : bool := negb (x <=? 0)%Z && negb (x >? len)%Z.
+(* ElemNumber::getCountString: value not NaN / infinite / < 0.5 / >= double(max CountType) = 2^64; x = round(value) *)
+Definition count_casts (x : Z) : bool := (1 <=? x)%Z && (x <? 2 ^ 64)%Z.
+(* NumberToDOMString / NumberToCharacters(double): finite, non-zero and inside [-2^63, 2^63) *)
+Definition int64_casts (x : Z) : bool := negb (x =? 0)%Z && (- 2 ^ 63 <=? x)%Z && (x <? 2 ^ 63)%Z.
+(* str:padding: !(theLength >= 1.0) || theLength >= double(npos) returns early; npos = 2^64 - 1, double(npos) = 2^64 *)
+Definition padding_casts (l : Z) : bool := (1 <=? l)%Z && (l <? 2 ^ 64)%Z.
+(* math:constant: thePrecision > 0 (tested by the caller); index = thePrecision < theSize ? size_type(thePrecision) : theSize - 1 *)
+Definition math_constant_index (p size : Z) : Z := if (p <? size)%Z then p else (size - 1)%Z.
